@@ -353,7 +353,19 @@ func (h *c14findRun) runInProcess(c *c14findCase) (o c14findOutcome) {
 		__selected_taxonomy__ = nil
 		h.loadedAs = want
 	}
-	rest, err := c14findParse(c.args(h.dir))
+	var rest []string
+	var err error
+	func() { // OptionSet is code of the tree under test
+		defer func() {
+			if rec := recover(); rec != nil {
+				o.broken = fmt.Sprintf("panic: %v (while the options were declared and parsed)", rec)
+			}
+		}()
+		rest, err = c14findParse(c.args(h.dir))
+	}()
+	if o.broken != "" {
+		return
+	}
 	if err != nil {
 		o.broken = "parse-error: " + err.Error()
 		return
@@ -693,6 +705,9 @@ func (h *c14findRun) check(c c14findCase) {
 	}
 	if len(c.Restrict) >= 2 {
 		h.r.Count("find_command_lines_with_2+_restrictions", 1)
+	}
+	if len(c.Patterns) > 0 {
+		h.r.Count("find_command_lines_with_patterns", 1)
 	}
 	if len(probs) == 0 {
 		return
@@ -1052,7 +1067,7 @@ func TestVerifC14Find(t *testing.T) {
 	}
 	r.RequireNonVacuous("find_command_lines_with_2+_restrictions")
 	r.RequireNonVacuous("find_taxa_listed_under_a_restriction")
-	r.RequireNonVacuous("find_taxa_listed_for_a_pattern")
+	r.RequireNonVacuous("find_command_lines_with_patterns") // (find_taxa_listed_for_a_pattern depends on what the command lists: a counter only)
 	r.RequireNonVacuous("find_taxa_not_listed")
 	r.RequireNonVacuous("find_paths_longer_than_one")
 }
